@@ -63,7 +63,10 @@ def run(ctx):
             for line in ce:
                 m = re.search(r"Actor (\d+) in simcall (.*)$", line) or re.search(r"Actor (\d+) in (.*)$", line)
                 if m:
-                    cex.append({"a": int(m.group(1)), "tc": 0, "tr": m.group(2).strip()})
+                    tr = m.group(2).strip()
+                    if "==> simcall:" in tr:            # "Actor 1 in Irecv ==> simcall: iRecv(mbox=0, ...)"
+                        tr = tr.split("==> simcall:", 1)[1].strip()
+                    cex.append({"a": int(m.group(1)), "tc": 0, "tr": tr})
             nh = sum(1 for x in t if x.get("e") == "handle")
             npath = len([x for x in path.split(";") if x])
             if len(cex) != npath or nh < npath:
